@@ -299,6 +299,11 @@ impl BoxHeader {
                 },
             })
         } else {
+            // 0 means "to the end of the file" and 1 announces a largesize; any other value
+            // smaller than the header itself cannot be a box size.
+            if size != 0 && (size as u64) < HEADER_SIZE {
+                return Err(Error::InvalidData("box size too small"));
+            }
             Ok(BoxHeader {
                 name: BoxType::from(typ),
                 size: size as u64,
